@@ -24,6 +24,13 @@ Definition e_mn (ws : option (list Q)) (c : data) : data :=
      (* pinned tree: np.ma.std ignores the weights, so the cell is defined as soon as one member is unmasked *)
      eopt eQ (guard (unweight l) (mn_epi_today l))].
 
+(* pinned tree when loc and scale carry different masks (F80): member = [ [] | [loc] ; [] | [scale] ] *)
+Definition e_mn2_today (ws : option (list Q)) (c : data) : data :=
+  let xs := dmap (fun d => (dopt dQi (dnth 0 d), dopt dQi (dnth 1 d))) c in
+  let l := match ws with None => map (fun x => (1%Q, x)) xs | Some w => combine w xs end in
+  L [eopt eQ (guard (mn_locs l) (mn2_loc_today l)); eopt eQ (guard (mn_union l) (mn2_total_today l));
+     eopt eQ (guard (mn_scales l) (mn2_ale_today l)); eopt eQ (guard (mn_locs l) (mn2_epi_today l))].
+
 Definition e_conf (ws : option (list Q)) (u : Q) (K : nat) (r : data) : data :=
   let l := attach ws (dmap (dopt d_row) r) in
   if defined l then L [elist eQ (cat_loc K l); eQ (cat_conf u K l); eQ (cat_conf_ale u l); eQ (cat_conf_epi u K l)]
@@ -54,6 +61,9 @@ Definition entries : list (Z * (data -> data)) :=
     (1904, fun d => elist (e_ent (d_ws (dnth 0 d)) (dnat (dnth 1 d))) (combine (dlist (dnth 2 d)) (dlist (dnth 3 d))));
     (1905, fun d => elist (e_mode (d_ws (dnth 0 d)) (dnat (dnth 1 d))) (dlist (dnth 2 d)));
     (1906, fun d => elist (e_mode_today (d_ws (dnth 0 d)) (dQi (dnth 1 d)) (dnat (dnth 2 d)) (dbool (dnth 3 d))) (dlist (dnth 4 d)));
+    (1914, fun d => elist (e_mn2_today (d_ws (dnth 0 d))) (dlist (dnth 1 d)));
+    (1915, fun d => let ws := d_ws (dnth 0 d) in
+                    elist (fun c => let l := attach ws (dmap (dopt d_pair) c) in eopt eQ (guard l (mn_ale_int64 l))) (dlist (dnth 1 d)));
     (* oracles, batched: [tol; items] -> list of booleans *)
     (1907, fun d => let tol := dQ (dnth 0 d) in
                     elist (fun it => ebool (ok_close tol (dQ (dnth 0 it)) (dQ (dnth 1 it)))) (dlist (dnth 1 d)));
